@@ -105,4 +105,19 @@ CLAIMS["C15"] = {
     "design_ref": "DESIGN.md §4 C15",
 }
 
+CLAIMS["C04"] = {
+    "technique": "decision-table extraction from resolved MIR (path enumeration, term substitution) compared with a specification oracle; who-may-write / pairing rules",
+    "text": "Decides who is answered with what as a finite table: the decision tables of the three header-dispatch sites (request parser before "
+            "and during Params, stream parser) are extracted on every path and compared row by row with an oracle written from the FastCGI "
+            "specification - reply constructor, protocol status, application status 0, id provenance (sender's id vs. request id), exactly "
+            "one append per owed row and none otherwise, next state, header consumption, and agreement of the three siblings (R4.1); a "
+            "GetValuesResult is emitted only when the whole remaining body is present, once, for a non-empty body, with the name-value "
+            "decoder bounded by the record's payload (R4.2); reply buffers are append-only except at the documented reset points (R4.3); "
+            "reported counts equal appended bytes (R4.4); a pending GetValues body cannot be discarded by other APIs (R4.5). Does NOT decide "
+            "which variables a body split at an arbitrary offset contributes (name-value prefix-monotonicity, C16) nor the arithmetic of "
+            "consume_output(k) interleavings.",
+    "note": "The oracle (engine/rules/c04.py: oracle) is hand-written from the FastCGI specification sections 3.3, 4, 5.1, 5.5; to_record / write_response encodings are C17's subject.",
+    "design_ref": "DESIGN.md §4 C04",
+}
+
 PENDING_REASON = "rules for this property are not built yet (build in progress; DESIGN.md §7 gives the order)"
